@@ -122,7 +122,7 @@ impl Monitor for OrderedOracle {
                 }
             }
             Ev::Recv { conn, dir, ch, bytes } => {
-                if kind_of(sim, *dir, *ch) != Some(Kind::ReliableOrdered) {
+                if kind_of(sim, *dir, *ch) != Some(Kind::ReliableOrdered) || self.exempt.contains(conn) {
                     return;
                 }
                 let c = self.chans.entry((*conn, *dir, *ch)).or_default();
